@@ -1005,3 +1005,34 @@ def check_distribution_names(ck: Checker, prog: Program, rule: str, modules=("hv
                          f"the defaults get statistics under two different assumptions", loc=f.loc())
     ck.floor(rule, m, 40, "defaults of distribution parameters")
     ck.ok(rule, "distribution defaults", f"{m} parameters default to the lognormal assumption")
+    # (c) the weighted standard deviation moves the mean to log space under its own test of the distribution name while the values are
+    #     moved by the transform _distribution_factory selects: both must read the alias table with the same key (same case folding),
+    #     or a spelling accepted by one and not the other subtracts a linear mean from logged values
+    fac, std = prog.funcs.get("statistics._distribution_factory"), prog.funcs.get("statistics._nanstd_weighted")
+    if fac is not None and std is not None:
+        def keys(f):
+            out = []
+            for c in own_nodes(f.node):
+                k = None
+                if isinstance(c, ast.Call) and isinstance(c.func, ast.Attribute) and c.func.attr == "get" and isinstance(c.func.value, ast.Name) \
+                        and c.func.value.id == "DISTRIBUTION_MAP" and c.args:
+                    k = c.args[0]
+                elif isinstance(c, ast.Subscript) and isinstance(c.value, ast.Name) and c.value.id == "DISTRIBUTION_MAP" and isinstance(c.ctx, ast.Load):
+                    k = c.slice
+                if k is not None:
+                    names = {n.id for n in ast.walk(k) if isinstance(n, ast.Name)}
+                    ps = [p_ for p_ in f.params if p_ in names]
+                    if len(ps) == 1:
+                        out.append((Translator(env={ps[0]: sp.Symbol("<name>", real=True)}).tr(k), c))
+            return out
+        fk, sk = keys(fac), keys(std)
+        if fk and sk:
+            forms = {str(k) for k, _c in fk}
+            for k, c in sk:
+                if str(k) in forms:
+                    ck.ok(rule, std.qualname, "the mean is moved to log space under the key the transform table is read with", nontrivial=False)
+                else:
+                    ck.violation(rule, std.qualname, "alias table key",
+                                 f"the weighted mean is moved to log space when DISTRIBUTION_MAP[{k}] is lognormal while the values are transformed according to "
+                                 f"DISTRIBUTION_MAP[{sorted(forms)[0]}]: for a spelling only one of the two accepts, a linear mean is subtracted from logged values",
+                                 loc=std.loc(c))
